@@ -4,6 +4,7 @@
 -/
 import CM.Proofs.StackLemmas
 import CM.Proofs.BagWfB
+import CM.Proofs.BagTerm
 namespace CM.C02
 open CM
 
@@ -135,7 +136,7 @@ example :
 
 /-! ### The node level: `connect_bags` itself (`CM.Model.Bag`, tied to /repo by the S-NODE correspondence)
 
-`Den b n t`: the node `n` of the bag `b` computes the term `t` over the bag's input names; `b.Field x t`: the output named
+`BDen b n t`: the node `n` of the bag `b` computes the term `t` over the bag's input names; `b.Field x t`: the output named
 `x` computes `t`; `Glue l t0 t`: `t` is `t0` with every input name replaced by what the bag `l` computes under that name
 (or left as an input if `l` passes the name on from further upstream, or `missing`). -/
 
@@ -167,18 +168,47 @@ theorem node_field_functional {b : Bag} (hb : b.WF) {x : String} {t₁ t₂ : BT
   obtain ⟨o₂, ho₂, hx₂, hd₂⟩ := h₂
   have : o₁ = o₂ := hb.outNames o₁ ho₁ o₂ ho₂ (hx₁.trans hx₂.symm)
   subst this
-  exact Den.det hb.single hd₁ hd₂
+  exact BDen.det hb.single hd₁ hd₂
 
 /-- every bag a chain of layers goes through is well-formed (by induction over the chain, any length) -/
 theorem node_chain_wf {head c : Bag} {tail : List Bag} (hh : head.WF) (ht : ∀ b ∈ tail, b.WF)
     (h : connectAll head tail = .ok c) : c.WF :=
   connectAll_wf hh ht h
 
+/-- **From the container to the value the compiled field returns** (C02 with C01): for a well-formed, acyclic bag whose
+compiled graph (`Bag.compileGraph`: `TreeNode.from_edges` and `Graph(inputs, node)`) passes the executable check of the VM
+theorems, with every used input bound, no scheduled failure and no impure function, the stack machine stops and returns
+exactly the value of the term the output node computes - by `node_connect_step` the composition of the layers' functions -
+evaluated by the specification; or raises exactly the error that evaluation gives. -/
+theorem node_pipeline_value {b : Bag} {o : BNode} {t : BTerm} (hb : b.WF) (hac : acyclicB b.edges = true)
+    (hok : (b.compileGraph o).okB = true) (env : String → Option Val) (w : World)
+    (hc : CallOK (b.compileGraph o) env) (hf : w.failAt = []) (hp : w.impureFns = [])
+    (hd : BDen b o t) (hnm : t.NoMissing) :
+    ∃ N out steps, (∀ fuel, N ≤ fuel → (b.compileGraph o).call env w fuel = some (out, steps)) ∧
+      match (t.den (denCfgOf env w)).v with
+      | .ok v => ∃ s, out = .done (.val v) s
+      | .error e => ∃ s, out = .raised e s :=
+  pipeline_value hb hac hok env w hc hf hp hd hnm
+
+/-- the term function the driver runs is sound for the relation the theorems talk about -/
+theorem node_term_sound (b : Bag) (fuel : Nat) (n : BNode) (t : BTerm) (h : b.term fuel n = some t) : BDen b n t :=
+  term_sound b fuel n t h
+
 /-- the executable form of the hypothesis, evaluated by the driver on every bag the real code connects -/
 theorem node_wf_check_sound {b : Bag} (h : b.wfB = true) : b.WF := wfB_sound h
 
 /-- non-vacuity: a Source-like and a Transform-like bag satisfy the hypotheses and connect -/
 example : exSource.wfB = true ∧ exTransform.wfB = true ∧ (connectBags exSource exTransform).toOption.isSome = true := by
+  decide +kernel
+
+/-- non-vacuity of `node_pipeline_value`: the connected example bag is well-formed and acyclic, the graph compiled for its
+`image` field passes the check, and the term of `image` is `zoom(load(id))` without missing inputs -/
+example : (match connectBags exSource exTransform with
+    | .ok c => c.wfB && acyclicB c.edges &&
+        (match byName c.outputs "image" with
+         | some o => (c.compileGraph o).okB && ((c.term 100 o).map BTerm.noMissingB == some true)
+         | none => false)
+    | .error _ => false) = true := by
   decide +kernel
 
 end CM.C02
